@@ -159,7 +159,8 @@ func init() {
 		rt := resType(instr)
 		ref := st.allocRef()
 		out := vInt(ref, rt)
-		// ghost: number of errors held
+		// ghost: number of errors held (a typed-nil *Error counts as empty, as in the library)
+		st.assume(sEq(sSel(st.comp("multierror#n", 1, "Int"), "0"), "0"))
 		prev := "0"
 		if args[0].K == KIface {
 			// err may itself be a *multierror.Error (flattened) or any error (1) or nil (0)
@@ -184,6 +185,8 @@ func init() {
 		if args[0].K == KIface {
 			me := &V{K: KIface, Tag: r.eng.typeID(rt), Val: ref}
 			r.assumeWraps(st, me, args[0])
+			// whatever the previous error wrapped is still wrapped (flattening / chaining)
+			st.assume("(forall ((t Int) (v Int)) (! (=> (wraps " + args[0].Tag + " " + args[0].Val + " t v) (wraps " + me.Tag + " " + me.Val + " t v)) :pattern ((wraps " + args[0].Tag + " " + args[0].Val + " t v))))")
 		}
 		st.writeLeaf("multierror#n", []string{ref}, "Int", "(+ "+prev+" "+add+")")
 		return out
@@ -248,7 +251,9 @@ func init() {
 		anyT := types.NewInterfaceType(nil, nil)
 		val := &V{K: KIface, T: anyT, Tag: selN(st.comp("syncmap#vtag", 2, "Int"), []string{id, args[1].Val}), Val: selN(st.comp("syncmap#val", 2, "Int"), []string{id, args[1].Val})}
 		ev := &EvalCtx{run: r, st: st}
-		return &V{K: KTuple, T: resType(instr), F: []*V{st.nameV("smload", ev.iteV(has, val, st.zero(anyT))), vBool(has)}}
+		_ = ev
+		st.mapZeroAxiom(h)
+		return &V{K: KTuple, T: resType(instr), F: []*V{st.nameV("smload", val), vBool(has)}}
 	})}
 
 	// ---- WaitGroup ----
